@@ -28,8 +28,9 @@ def configs(tier, seed, mode):
             n = len(rangefmt.row_pairs(row))
             w = min(3, n - off)
             out.append(dict(row=row, offset=off, w=w, partial=False, strays=[stray()], weights='no-negzero', reorder=(row[0] == 'Pocket' and off == 0)))
-        out.append(dict(row=('Pocket',), offset=rnd.randrange(0, 11), w=2, partial=True, strays=[stray()], weights='no-negzero', reorder=False))
+        out.append(dict(row=('Pocket',), offset=rnd.randrange(0, 12), w=1, partial=True, strays=[stray()], weights='no-negzero', reorder=False))
         out.append(dict(row=('Suited', rnd.randrange(0, 10)), offset=0, w=2, partial=True, strays=[], weights='no-negzero', reorder=False))
+        out.append(dict(row=('Ofsuit', rnd.randrange(0, 11)), offset=0, w=1, partial=True, strays=[], weights='no-negzero', reorder=False))
         out.append(dict(row=('Pocket',), offset=0, w=1, partial=False, strays=[stray()], weights='negzero', reorder=False))
     else:
         for row in rows:
@@ -143,7 +144,7 @@ def run(PID, mode, a, seed, t0):
                 (['order', 'complete<=>rank-pair-token', 'token-kind', 'maximal-runs', 'history-independence'] if 'c17' in mode else [])
         if not errs:
             for nme in names:
-                if not any(k[0] == nme for k in bykey):
+                if not any(k[0] == nme and k[1] != 'weight=neg-zero' for k in bykey):
                     obs.append(Obligation(nme, 'holds', f'on all {sum(r["fmt_paths"] for r in results)} format paths / {sum(r["parse_paths"] for r in results)} parse-back paths of {len(cfgs)} window configurations'
                                           + (f'; {sum(r["checked"] for r in tres)} token round trips' if nme == 'token-roundtrip' else ''), queries=q // max(len(names), 1), solver_s=ss / max(len(names), 1)))
         paths = sum(r['fmt_paths'] + r['parse_paths'] for r in results) + sum(r.get('paths', 0) for r in tres)
